@@ -163,6 +163,12 @@ func genHistory(r *hx.Rand, idx int, tier, mode string) *hx.Case {
 		if mode == "c14" {
 			o.Op = "save"
 			o.Fold, o.Late, o.Retain = r.Chance(1, 3), r.Chance(1, 2), r.Chance(1, 3)
+			if o.Late && r.Chance(1, 3) {
+				o.Over, o.Retain = true, false
+			}
+			if r.Chance(1, 5) {
+				o.Fault = r.Range(1, 6)
+			}
 		}
 		ops = append(ops, hx.Op(o))
 		n = n2
